@@ -63,6 +63,9 @@ func FuzzC13BrokerBytes(f *testing.F) {
 // stored value. decodeValue must not panic; whatever it accepts must be
 // exactly what encodeValue produces for the decoded (packet, sequence number).
 func FuzzC15Decode(f *testing.F) {
+	if !mqtt.VerifExportAvailable {
+		f.Skip("the export shim does not compile against this tree")
+	}
 	f.Add([]byte{})
 	f.Add(make([]byte, 11))
 	f.Add(make([]byte, 12))
